@@ -211,6 +211,9 @@ class RouterWorld(World):
     def sym_cmp(self, op, a, b):
         if isinstance(a, Scaled) or isinstance(b, Scaled):
             return None
+        for x in (a, b):
+            if isinstance(x, Sym) and x.kind in ("stale", "exp"):
+                return None     # a value left by a previous call / the runtime exponent: any outcome
         kinds = {x.kind for x in (a, b) if isinstance(x, Sym)}
         if kinds <= {"elev"} or kinds <= {"slope"} or kinds <= {"drop"}:
             ra, rb = self.rep(a), self.rep(b)
@@ -412,6 +415,21 @@ class RouterWorld(World):
         return NOT_HANDLED
 
 
+def make_impl(it, apply_fn, op_obj):
+    """the operator implementation object, built by the library's own constructor"""
+    unit = apply_fn.unit
+    rec = unit.rec_by_type.get(apply_fn.d.get("clst"))
+    ctors = [f for f in unit.fns.values() if f.is_ctor and f.d.get("clst") == apply_fn.d.get("clst")
+             and len(f.params) == 1]
+    if rec is None or not ctors:
+        return Obj(apply_fn.cls, {"m_op_ptr": op_obj})
+    this = it.new_obj(apply_fn, rec)
+    it.call_fn(ctors[0], this, [op_obj])
+    if not isinstance(this.fields.get("m_op_ptr"), Obj):
+        this.fields["m_op_ptr"] = op_obj
+    return this
+
+
 def run_router(apply_fn, sc, op_obj, world_cls=RouterWorld):
     """interpret <impl>::apply(graph_impl, elevation, pool) on one scenario; returns the list of
     final worlds, one per decision sequence (forks happen on undetermined comparisons)"""
@@ -430,7 +448,7 @@ def run_router(apply_fn, sc, op_obj, world_cls=RouterWorld):
                 w.on_decision(op, it.rv(a), it.rv(b), r)
             return r
         it.compare = compare
-        this = Obj(apply_fn.cls, {"m_op_ptr": _copy.deepcopy(op_obj)})
+        this = make_impl(it, apply_fn, _copy.deepcopy(op_obj))
         try:
             it.call_fn(apply_fn, this, [w.graph, w.elev, w.pool])
             w.threw = None
